@@ -2,7 +2,8 @@
  * the two functions of model_event_print -> check_payload -> ev_spec_print -> format_region ->
  * print_arg that look at the event's payload.
  *
- * For an ARBITRARY definition shape (0..4 arguments of any type at any offset -- this includes
+ * For an ARBITRARY definition shape (check_payload: 0..2 arguments of any type at any offset; print_arg: any one
+ * argument -- this includes
  * every compiled definition, in particular "OAr(i32 cpu, i32 tid)" and the jumbo
  * "VYc+(u32 typeid, str label)" which the harness reaches explicitly) and a payload OBJECT of
  * EXACTLY payload_size arbitrary bytes (so any access outside the event's payload is a
@@ -32,7 +33,8 @@
 #define C18_MAXPAY 24
 #endif
 #ifndef C18_MAXARGS
-#define C18_MAXARGS 4      /* check_payload group: arguments per definition (each string scan is a symbolic-offset walk) */
+#define C18_MAXARGS 2      /* check_payload group: arguments per definition (each string scan is a symbolic-offset walk:
+                            * 4 arguments x 24 bytes = 1 M variables, no answer in 150 s; 2 x 24: 47 s) */
 #endif
 
 /* ---- ghost: the payload object and the log of reads from it ---- */
